@@ -206,7 +206,7 @@ func runCollectAll(p *Prog, r *Report) {
 							case *ast.UnaryExpr:
 								if e.Op == token.NOT {
 									if id, ok := ast.Unparen(e.X).(*ast.Ident); ok {
-										if o := info.ObjectOf(id); o != nil && len(inLoop[o]) > 0 && perElementResult(info, inLoop[o]) {
+										if o := info.ObjectOf(id); o != nil && len(inLoop[o]) > 0 && perElementResult(info, inLoop[o]) && dependsOnElement(fn, rs, inLoop[o]) {
 											miss = "!" + id.Name
 										}
 									}
@@ -218,7 +218,7 @@ func runCollectAll(p *Prog, r *Report) {
 										other = e.Y
 									}
 									if id, ok := ast.Unparen(other).(*ast.Ident); ok {
-										if o := info.ObjectOf(id); o != nil && len(inLoop[o]) > 0 && perElementResult(info, inLoop[o]) {
+										if o := info.ObjectOf(id); o != nil && len(inLoop[o]) > 0 && perElementResult(info, inLoop[o]) && dependsOnElement(fn, rs, inLoop[o]) {
 											tv := info.TypeOf(other)
 											isErr := tv != nil && tv.String() == "error"
 											if (isErr && e.Op == token.NEQ) || (!isErr && e.Op == token.EQL) {
@@ -269,6 +269,29 @@ func perElementResult(info *types.Info, as []ast.Node) bool {
 			switch ast.Unparen(s.Rhs[0]).(type) {
 			case *ast.CallExpr, *ast.IndexExpr, *ast.TypeAssertExpr:
 				return true
+			}
+		}
+	}
+	return false
+}
+
+// dependsOnElement: some assignment of the variable inside the loop mentions the loop's
+// value variable (directly or through locals defined in the loop). A result computed from
+// the loop *index* alone (param, ok := paramAt(sig, i)) is a property of the position —
+// typically monotone — not of the element.
+func dependsOnElement(fn *Func, rs *ast.RangeStmt, as []ast.Node) bool {
+	info := fn.Info()
+	vid, ok := rs.Value.(*ast.Ident)
+	if !ok || vid.Name == "_" {
+		return false
+	}
+	vo := info.ObjectOf(vid)
+	for _, a := range as {
+		if s, ok := a.(*ast.AssignStmt); ok {
+			for _, rhs := range s.Rhs {
+				if mentionsVar(fn, rhs, vo, 3) {
+					return true
+				}
 			}
 		}
 	}
